@@ -151,6 +151,7 @@ let run_g toks =
   | ["kcont"; p; snap; c1; c2; q; al] ->
     let mem a = if int_of_z a = 1 then u64 c1 else if int_of_z a = 2 then u64 c2 else zi 0 in
     print_endline (oc (Gen_VersionKeeper.coq_Check_cont mem (z p) (u64 snap) (z q) (al <> "0")))
+  | ["mmmk"; c; i] -> print_endline (oc (Gen_MultiMapGuards.coq_MakeIt_guard (u64 c) (u64 i)))
   | ["mmrm"; c; i] -> print_endline (oc (Gen_MultiMapGuards.coq_RemoveKI_guard (u64 c) (u64 i)))
   | ["selidx"; c; i] -> print_endline (oc (Gen_SelectionGuards.coq_SelIndex_guard (u64 c) (u64 i)))
   | ["row"; c; i] -> print_endline (oc (Gen_TableGuards.coq_Row_guard (u64 c) (u64 i)))
